@@ -156,7 +156,7 @@ def attribute(kind, x, y, o):
     if kind == 'add':
         ea, eb = L.fields(x)[1], L.fields(y)[1]
         gap = abs(ea - eb)
-        if gap % 32 != gap and L.m_add(x, y) == o[0] and L.spec_add_ok(x, y, L.m_add(x, y, ediff_bits=9)) \
+        if gap % 32 != gap and L.m_add(x, y) == o[0] and L.spec_add_ok(x, y, L.m_add(x, y, ediff_bits=8)) \
                 and L.m_add(y, x) == L.m_add(x, y):
             return KF_ADD
     if kind == 'f2i':
